@@ -54,9 +54,9 @@ def client_program(rng, nthreads, nops, cells=2, slots=3, maxheld=None, guard_op
 # ---------------------------------------------------------------------------------------------------------------
 # step-level reclaimer models (Model/EbrDefs.v, Model/HpDefs.v) and their trace correspondence (C01, C02)
 # ---------------------------------------------------------------------------------------------------------------
-MODEL_HARNESSES = [('ebr', (), False, ''), ('hp', ('XV_RECL=HPs<3>',), False, '')]
+MODEL_HARNESSES = [('ebr', (), False, ''), ('hp', ('XV_RECL=HPs<3>',), False, ''), ('qsbr', ('XV_RECL=QSBR',), False, '')]
 
-def model_program(rng, with_exit):
+def model_program(rng, with_exit, regions=False):
     nth = rng.choice([2, 3, 3]); ncells = rng.choice([1, 2, 2]); nslots = rng.choice([1, 2, 3])
     prog = []
     for _ in range(nth):
@@ -69,6 +69,8 @@ def model_program(rng, with_exit):
             elif k < 0.82: ops.append('hold %d %d' % (c, s))
             elif k < 0.92: ops.append('drop %d' % s)
             else: ops.append('deref %d' % s)
+        if regions and rng.random() < 0.4:
+            i = rng.randrange(len(ops) + 1); ops.insert(i, 'enter'); ops.insert(rng.randrange(i + 1, len(ops) + 1), 'leave')
         if with_exit: ops.append('exit')
         prog.append(ops)
     return ({'cells': str(ncells), 'slots': str(nslots), 'flushes': '12'}, prog)
@@ -77,6 +79,10 @@ EBR_FIXED = [
     ({'cells': '2', 'slots': '3', 'flushes': '8'}, [['repl 0', 'repl 0', 'read 1', 'repl 1'], ['hold 0 1', 'read 0', 'deref 1', 'drop 1', 'repl 0']]),
     ({'cells': '2', 'slots': '3', 'flushes': '12'}, [['repl 0'], ['repl 1'], ['read 0'] * 8, ['read 1'] * 8]),
     ({'cells': '2', 'slots': '3', 'flushes': '8'}, [['read 0'], ['read 0', 'read 1'], ['read 0', 'read 1']]),
+]
+QSBR_FIXED = [
+    ({'cells': '2', 'slots': '3', 'flushes': '12'}, [['hold 1 0', 'repl 0'], ['read 0', 'read 0', 'read 0'], ['hold 1 1', 'repl 1']]),
+    ({'cells': '2', 'slots': '3', 'flushes': '12'}, [['repl 0', 'repl 1'], ['hold 0 0', 'deref 0', 'read 1', 'drop 0'], ['enter', 'read 0', 'repl 0', 'leave']]),
 ]
 HP_FIXED = [
     ({'cells': '2', 'slots': '3', 'flushes': '2'}, [['hold 0 0', 'hold 1 1', 'hold 0 2', 'read 0', 'repl 1', 'drop 1', 'repl 1', 'exit'], ['repl 0', 'repl 1', 'exit'], ['repl 1', 'clear 0', 'clear 0', 'exit']]),
@@ -92,6 +98,10 @@ def model_ties(ctx, do_correspondence, tie_broken_sig):
         cases = EBR_FIXED + [model_program(rng, False) for _ in range(k)]
         st = do_correspondence(ctx, 'ebr', Hs.pop('ebr'), cases, 8 if thorough else 4, 'epoch_based')
         tie = tie or tie_broken_sig(st, 'ebr')
+    if 'qsbr' in Hs:
+        cases = QSBR_FIXED + [model_program(rng, False, regions=True) for _ in range(k)]
+        st = do_correspondence(ctx, 'qsbr', Hs.pop('qsbr'), cases, 8 if thorough else 4, 'quiescent_state_based')
+        tie = tie or tie_broken_sig(st, 'qsbr')
     if 'hp' in Hs:
         cases = HP_FIXED + [model_program(rng, True) for _ in range(k)]
         for cfg, prog in cases: cfg['flushes'] = '2'
